@@ -439,8 +439,19 @@ def d9_dtype_and_line(chk, repo):
     okg, det = L.guard("len(points) != len(values)", exc=("ValueError",))
     chk.ob("line.Line.__init__::same-number-of-points-and-values", okg, "C02.D9", det, L.f)
     pts = find_assign(L, lambda t_, s_: isinstance(s_.targets[0], ast.Name) and s_.targets[0].id == "points")
-    vals = find_assign(L, lambda t_, s_: (decode_call(L.ctx, t_) or ("",))[0] == ".reshape")
-    okr = vals is not None and L.eq(vals[2], L.spec("np.array(values).reshape((np.array(points).shape[0], -1))"))
+    vals = find_assign(L, lambda t_, s_: (decode_call(L.ctx, t_) or ("",))[0] == ".reshape" and
+                       L.ctx.mentions(decode_call(L.ctx, t_)[1][0], L.spec("values")))
+    # the points as an array of rank 2, one row per point: points of a one-dimensional mesh are plain numbers (array2tuple
+    # collapses one-element arrays), so without the reshape `points[0, :]` and `points[..., i]` fail for 1-d meshes
+    P = pts[2] if pts is not None else L.spec("np.array(points)")
+    okp2 = pts is not None and any(L.eq(P, L.spec(t_)) for t_ in (
+        "np.array(points).reshape((len(points), -1))", "np.array(points).reshape(len(points), -1)",
+        "np.asarray(points).reshape((len(points), -1))", "np.reshape(np.array(points), (len(points), -1))"))
+    chk.ob("line.Line.__init__::points-one-row-each", okp2, "C02.D9",
+           f"points are used as {L.show(P)[:120]}; they must be reshaped to (number of points, -1) as the values are: a "
+           "one-dimensional mesh yields plain numbers and `points[0, :]` raises IndexError", L.f, pts[0] if pts else None)
+    okr = vals is not None and (L.eq(vals[2], L.spec("np.array(values).reshape((P.shape[0], -1))", env={"P": P})) or
+                                L.eq(vals[2], L.spec("np.array(values).reshape((len(points), -1))")))
     chk.ob("line.Line.__init__::one-row-per-point", okr, "C02.D9",
            "values must be reshaped to (number of points, -1): row i belongs to point i", L.f, vals[0] if vals else None)
     loops = [s for s in L.stmts() if isinstance(s, ast.For)]
@@ -455,7 +466,7 @@ def d9_dtype_and_line(chk, repo):
         if L.eq(it, L.spec("enumerate(point_columns)")):
             i_ = L.ctx.mk(("index",), (L.spec("point_columns"),))
             c_ = L.ctx.mk(("iter", ()), (L.spec("point_columns"),))
-            okp = L.eq(idx, c_) and L.eq(val, L.spec("np.array(points)[..., i]", env={"i": i_}))
+            okp = L.eq(idx, c_) and L.eq(val, L.spec("P[..., i]", env={"i": i_, "P": P}))
         elif (decode_call(L.ctx, it) or ("",))[0] == "zip" and vals is not None:
             zc = decode_call(L.ctx, it)
             i_ = L.ctx.mk(("iter", ()), (zc[1][0],))
